@@ -61,6 +61,8 @@ pub struct CmpTables {
 pub fn cmp_models(cx: &Cx, rep: &mut Report, traits: &[usize], prefix: &str, report_structure: bool) -> CmpTables {
     crate::misc::attr_fields_rule(cx, rep);
     crate::misc::span_hygiene_rule(cx, rep);
+    crate::misc::mentions_param_rule(cx, rep);
+    crate::misc::wcb_rule(cx, rep);
     let mut scratch = Report::new(&rep.prop, &rep.tier, &cx.verif);
     let am = attr_map(&cx.ix, rep);
     let mut cache = InstCache::default();
